@@ -396,6 +396,11 @@ func ProcessIndexRequestPle(tsNow uint64, indexNameIn string, flush bool,
 		}
 	}
 
+	// the index name becomes part of directory and file names
+	if !vtable.IsValidIndexName(indexNameIn) {
+		return utils.TeeErrorf("ProcessIndexRequestPle: invalid index name %q", indexNameIn)
+	}
+
 	indexNameConverted := AddAndGetRealIndexName(indexNameIn, localIndexMap, myid)
 	tsKey := config.GetTimeStampKey()
 
